@@ -8,6 +8,8 @@ from symx.proto import (Entropy, setup_hash_axioms, outcome, okind, orders, new_
                         PEER, SIDE_BYTE)
 
 PID = "C16"
+TECHNIQUE = 'symbolic footprint/determinism check, write monitor over every symbolic path (parameter/group/element objects, modules, classes, function defaults), symbolic execution of all interleavings of 2 and 3 sessions vs isolated runs'
+LEVEL_NOTE = 'real thread schedules are not explored: the thread clause rests on the frame condition; call-granularity schedules'
 EXPLANATION = (
     "Three solver-side obligations over the real classes. (1) Footprint and determinism: the message, key and "
     "serialized fields of a session are terms over that session's own constructor arguments, entropy bytes and inbound "
